@@ -410,13 +410,54 @@ func runC31(c *Ctx) {
 					adv = false
 				}
 			}
-			c.check(adv, "C31.hkdf-offsets", "output offset advances inside the per-secret loop", secretCopy.Pos(), "n += secretLen per secret", "every secret is copied from the same HKDF output range (the offset does not advance per secret), so both directions share one key")
-			if adv && ok && src.High != nil {
+			// the same offsets written as a product: b[i·L : i·L+L] for the loop index i, extra at count·L
+			prodForm := false
+			if !adv && ok {
+				if li, lb, isLoop := indexLoop(loopHeaderOf(secretCopy.Block())); isLoop {
+					lo := linOf(src.Low)
+					hi := linOf(src.High)
+					if mul, isMul := src.Low.(*ssa.BinOp); isMul && mul.Op == token.MUL && (mul.X == li || mul.Y == li) {
+						stepV := mul.Y
+						if mul.Y == li {
+							stepV = mul.X
+						}
+						d := hi.add(lo, -1)
+						okStep := len(d.T) == 1 && d.T[render(stepV)] == 1 && d.K == 0
+						// the bound is the number of secrets: numOfSecret or len(k.secret) (= make(.., numOfSecret))
+						rb := render(lb)
+						okBound := rb == "$0" || rb == "len($r.secret)" || rb == "len(make([][]byte,$0))" || strings.HasPrefix(rb, "len(make([][]byte,$0")
+						es, okE := extraCopy.Call.Args[1].(*ssa.Slice)
+						okExtra := false
+						if okE && es.Low != nil {
+							if em, isMul := es.Low.(*ssa.BinOp); isMul && em.Op == token.MUL {
+								ex, ey := render(em.X), render(em.Y)
+								okExtra = (ex == "$0" && ey == render(stepV)) || (ey == "$0" && ex == render(stepV))
+							}
+						}
+						prodForm = okStep && okBound && okExtra
+					}
+				}
+			}
+			if prodForm {
+				c.ok("C31.hkdf-offsets", "output offset advances inside the per-secret loop", secretCopy.Pos(), "b[i·L : i·L+L], extra at numOfSecret·L")
+			} else {
+				c.check(adv, "C31.hkdf-offsets", "output offset advances inside the per-secret loop", secretCopy.Pos(), "n += secretLen per secret", "every secret is copied from the same HKDF output range (the offset does not advance per secret), so both directions share one key")
+			}
+			if prodForm {
+				// buffer = secretLen * (numOfSecret+1)
+				for _, cs := range c.calls(hk, byCallee("io.ReadFull")) {
+					_, a := callArgs(cs.Common())
+					if ms, ok := unsliceBase(a[1]).(*ssa.MakeSlice); ok {
+						r := render(ms.Len)
+						c.check(strings.Contains(r, "($0 + 1)") && strings.Contains(r, "*"), "C31.hkdf-offsets", "HKDF output covers all secrets and the extra", ms.Pos(), r, "HKDF output length is "+r)
+					}
+				}
+			} else if adv && ok && src.High != nil {
 				l := linOf(src.High)
 				c.check(l.T[render(nphi)] == 1 && l.T[render(step)] == 1 && l.K == 0, "C31.hkdf-offsets", "secret range is [n, n+secretLen)", secretCopy.Pos(), "b[n:n+secretLen]", "secret copied from "+render(secretCopy.Call.Args[1]))
 			}
 			es, okE := extraCopy.Call.Args[1].(*ssa.Slice)
-			c.check(okE && es.Low == nphi, "C31.hkdf-offsets", "session extra is the range after the last secret", extraCopy.Pos(), "b[n:n+secretLen] after the loop", "extra copied from "+render(extraCopy.Call.Args[1]))
+			c.check(prodForm || (okE && es.Low == nphi), "C31.hkdf-offsets", "session extra is the range after the last secret", extraCopy.Pos(), "b[n:n+secretLen] after the loop", "extra copied from "+render(extraCopy.Call.Args[1]))
 			// buffer = secretLen * (numOfSecret+1)
 			for _, cs := range c.calls(hk, byCallee("io.ReadFull")) {
 				_, a := callArgs(cs.Common())
